@@ -8,6 +8,7 @@ import Mathlib.Analysis.SpecialFunctions.Log.Basic
 import Mathlib.Tactic.FieldSimp
 import Mathlib.Tactic.Ring
 import Mathlib.Algebra.Order.Field.Rat
+import Mathlib.Data.Matrix.Mul
 
 namespace Amisc.C16
 
@@ -120,6 +121,38 @@ theorem norm_domain_is_image (ts : List Tr) (h : Hyper) (lb ub : Q) (hd : h.dom 
 theorem decode_time_stable (ts : List Tr) (h h' : Hyper) (x : Q) (hok : chainOK ts h) (hsame : h' = h) :
     denormalize ts h' (normalize ts h x) = x := by
   rw [hsame]; exact chain_rt ts h x hok
+
+/-- a chain whose stages never read the hyper-parameters (only `linear` stages) -/
+def HyperFree : List Tr → Prop
+  | [] => True
+  | .linear m _ :: ts => m ≠ 0 ∧ HyperFree ts
+  | _ :: _ => False
+
+/-- **time stability, full strength, for hyper-parameter-free chains**: whatever happened to the variable's domain or
+    distribution between encoding (`h`) and decoding (`h'`), the stored value decodes to the physical value it came from -/
+theorem decode_time_stable_linear : ∀ (ts : List Tr) (h h' : Hyper) (x : Q), HyperFree ts →
+    denormalize ts h' (normalize ts h x) = x
+  | [], _, _, _, _ => rfl
+  | .linear m b :: ts, h, h', x, hf => by
+      simp only [normalize, denormalize, applyTr]
+      rw [decode_time_stable_linear ts _ _ _ hf.2]
+      simp only [Bool.false_eq_true, if_false, if_true]
+      exact linear_rt m b x hf.1
+  | .minmax _ _ _ _ :: _, _, _, _, hf => absurd hf (by simp [HyperFree])
+  | .zscore _ _ :: _, _, _, _, hf => absurd hf (by simp [HyperFree])
+
+/-- … and it is FALSE for a `minmax` stage with deferred bounds (finding F6): a value 2 encoded while the domain was (1, 3)
+    decodes to 5/2 after the domain has been updated to (0, 5) -/
+theorem minmax_not_time_stable :
+    denormalize [.minmax 0 0 0 1] { dom := some (0, 5), dist := none }
+      (normalize [.minmax 0 0 0 1] { dom := some (1, 3), dist := none } 2) = 5 / 2 := by
+  decide +kernel
+
+/-- latent coefficients survive reconstruction + compression when the projection has orthonormal columns (SVD):
+    `Pᵀ (P c) = c` -/
+theorem latent_roundtrip {m r : Type*} [Fintype m] [Fintype r] [DecidableEq r] (P : Matrix m r ℚ)
+    (horth : P.transpose * P = 1) (c : r → ℚ) : P.transpose.mulVec (P.mulVec c) = c := by
+  rw [Matrix.mulVec_mulVec, horth, Matrix.one_mulVec]
 
 /-! non-vacuity: a three-stage chain on a variable with domain (2, 6) and N(4, 1/2) -/
 example : chainOK [.minmax 0 0 0 1, .linear 2 (-1), .zscore 0 0] { dom := some (2, 6), dist := some (4, 1/2) } := by
